@@ -70,6 +70,8 @@ Base16 ==
                       \/ c.cfg.est = "block" /\ <<c.cfg.gthr, c.cfg.thr, c.cfg.maxLinks>> \in {<<Big, 95, 0>>}
                       \/ c.cfg.est = "disabled" /\ c.cfg.maxLinks = 2}
 
+One16 == {c \in Base16 : c.cfg.est = "links" /\ c.cfg.gthr = 75}
+
 (* ---- histories ---- *)
 AddOps == {nt \in Names \X Targets : nt[2] = "T1" \/ nt[1] \in {"a", "b"}}
 GInit == hist = <<>> /\ \E c \in GCases : InitWith(c.w, c.cfg)
